@@ -2,6 +2,7 @@ from typing import Any, List, TypeVar, Union
 
 from statham.schema.elements.base import Element
 from statham.schema.constants import Maybe, NotPassed
+from statham.schema.exceptions import ValidationError
 from statham.schema.validation import InstanceOf
 
 
@@ -56,7 +57,12 @@ class Number(NumericElement[float]):
     """
 
     def construct(self, value, _property):  # pylint: disable=no-self-use
-        return float(value)
+        try:
+            return float(value)
+        except OverflowError:
+            raise ValidationError.from_validator(
+                _property, value, "Must be within the range of a float."
+            )
 
     @property
     def type_validator(self):
